@@ -2333,6 +2333,14 @@ theorem create_modules_creates (pool cfg : List ModCfg) (fuel depth : Nat)
   have h0 : (createLoop pool depth fuel cfg { table := cfg }).errors = 0 := Nat.le_zero.mp (h ▸ hs.2)
   exact hs.1 _ (createLoop_creates pool depth fuel cfg _ h0 c hc)
 
+/-- what the monitor `allRegisteredB` demands of the implementation follows from `RegisteredOK` -/
+theorem allRegistered_of_registeredOK (created : List (String × Bool)) (registered : List String)
+    (h : RegisteredOK created registered) : allRegisteredB created registered = true := by
+  unfold allRegisteredB unregistered
+  unfold RegisteredOK at h
+  rw [← h]
+  simp [List.filter_eq_nil_iff]
+
 /-- the report follows the registration: for a node whose modules are the created module objects (name and `export` flag,
 in the order of creation), the modules of the report are the registered ones, in that order -/
 theorem describe_follows_registration (pre : Predef) (n : Node J V) (created : List (String × Bool))
@@ -2376,7 +2384,9 @@ example : isCreated (createModules pool5 cfg5 7 7) "bus" = true :=
 
 /-- the monitor refuses the registry of the seeded change (`bus` created, exported, not registered) -/
 example : registeredB [("first", true), ("hub", false), ("bus", true), ("hidden", false), ("ch1", true), ("ch2", false)]
-    ["first", "ch1"] = false := by decide +kernel
+    ["first", "ch1"] = false ∧
+    unregistered [("first", true), ("hub", false), ("bus", true), ("hidden", false), ("ch1", true), ("ch2", false)]
+    ["first", "ch1"] = ["bus"] := by decide +kernel
 end Example5
 
 end Create
